@@ -132,6 +132,9 @@ class iter_subsubsections:
                            header=Rec(length=U32, vendor_name=Str), subsubsec_start=Nat,
                            subsubsection=Const(_S.ARMAttributesSubsubsection)), scope=Const(None))
     ghost = {"$B": "self.stream.B", "$s0": "self.subsubsec_start"}
+    requires = ["forall(lambda k: tag_at('Elf_Arm_Attribute_Tag', self.stream.B,"
+                " subsub_off('Elf_Arm_Attribute_Tag', self.stream.B, self.subsubsec_start, k))"
+                " in ('TAG_FILE', 'TAG_SECTION', 'TAG_SYMBOL'), 0, 2**32)"]
     yield_shape = SubSubT
     loops = {0: dict(invariant=["$k == $n"])}
     each_yield = ["value.offset == subsub_off('Elf_Arm_Attribute_Tag', $B, $s0, $n)"]
